@@ -1,12 +1,23 @@
 import AthlibVerif.Props.C02
+import AthlibVerif.Lemmas.RankOrder
+import AthlibVerif.Lemmas.Interleave
 /-!
 # C08 — High jump: replaying the log or the card, in any jumping order, rebuilds it
 
 Proved (all histories, no bound): replaying the recorded action log of any reachable competition from
 the empty competition reproduces the **whole** state (hence every observable) — `C08_replay`; the log is
 exactly the subsequence of accepted calls — `C08_log_is_accepted_calls`.
-Not proved here (full statements kept below; decided by tools/checks/c08.py on the implementation and on
-the model): the card export/import round trip and the independence from the per-height interleaving.
+Also proved, for every history (Lemmas/RankOrder, Commute, Interleave): the order of `ranked_jumpers` — the tie-break
+of `_rankj` on the previous position — is unobservable (`C08_ranked_order_unobservable*`), and the interleaving
+clause itself, `C08_interleaving : C08_interleaving_statement`: after any history, a block of trials accepted in
+full is accepted in full in every rearrangement that keeps each athlete's own order, and whatever follows ends in
+the same state, heights, cards, bests and places.  The chain of reasoning: two trials of different athletes commute
+from every state with the invariants of reachable states (`trial_commute`: the second athlete was in and not done,
+so `_rank` in between only re-numbered the places; places are recomputed from keys; the rest of `_rank` does not
+depend on the order of equal keys); every such rearrangement is a chain of adjacent exchanges
+(`swaps_of_same_threads`).
+Not proved here (decided by tools/checks/c08.py on the implementation and on the model): the card export/import
+round trip.
 -/
 namespace AthlibVerif.Props.C08
 open AthlibVerif AthlibVerif.HJ AthlibVerif.Props.C02
@@ -76,8 +87,7 @@ def obs (c : Comp) : Obs :=
   { phase := c.phase, heights := c.heights,
     cards := c.jumpers.map (fun j => (j.bib, (if j.bestIdx.isSome then some j.place else none), j.best, j.card)) }
 
-/-- Full statement of the interleaving clause (NOT proved; checked by enumeration on implementation and
-    model): two call sequences that differ only by a permutation, within one bar height, that keeps each
+/-- Full statement of the interleaving clause (proved below as `C08_interleaving`): two call sequences that differ only by a permutation, within one bar height, that keeps each
     athlete's own order, are either both fully accepted with equal observables, or neither is. -/
 def C08_interleaving_statement : Prop :=
   ∀ (pre seg seg' post : List Op),
@@ -87,6 +97,81 @@ def C08_interleaving_statement : Prop :=
     acceptedFrom {} (pre ++ seg) = pre ++ seg →
     (acceptedFrom {} (pre ++ seg') = pre ++ seg' ∧
      obs (runFrom {} (pre ++ seg ++ post)) = obs (runFrom {} (pre ++ seg' ++ post)))
+
+theorem runFrom_eq_run (c : Comp) (ops : List Op) : runFrom c ops = HJ.run c ops := rfl
+
+theorem accepted_length (ops : List Op) : ∀ c, (acceptedFrom c ops).length ≤ ops.length := by
+  induction ops with
+  | nil => intro c; simp [acceptedFrom]
+  | cons op rest ih =>
+    intro c
+    simp only [acceptedFrom]
+    split
+    · simp only [List.length_cons]; have := ih (step c op).1; omega
+    · simp only [List.length_cons]; have := ih (step c op).1; omega
+
+/-- "every call of the sequence is accepted", in the two forms used here -/
+theorem accepted_eq_iff (ops : List Op) : ∀ c, acceptedFrom c ops = ops ↔ allOk c ops = true := by
+  induction ops with
+  | nil => intro c; simp [acceptedFrom, allOk]
+  | cons op rest ih =>
+    intro c
+    simp only [acceptedFrom, allOk]
+    by_cases hok : (step c op).2 = .ok
+    · simp only [hok, if_true, List.cons.injEq, true_and, beq_self_eq_true, Bool.true_and]
+      exact ih _
+    · simp only [hok, if_false]
+      constructor
+      · intro h
+        have := accepted_length rest (step c op).1
+        rw [h] at this
+        simp only [List.length_cons] at this
+        omega
+      · intro h
+        have : ((step c op).2 == Outcome.ok) = false := by simpa using hok
+        simp [this] at h
+
+theorem obs_of_same (a b : Comp) (h : SameButRanked a b) : obs a = obs b := by
+  unfold obs
+  rw [h.1, h.2.1, h.2.2.1]
+
+/-- **The tie-break of `_rankj` on the previous position is unobservable**: two competitions that differ only in the
+    order of `ranked_jumpers` give the same verdict on every further call and stay observably equal, for every
+    continuation. -/
+theorem C08_ranked_order_unobservable (a b : Comp) (hw : WF a) (h : SameButRanked a b) (ops : List Op) :
+    acceptedFrom a ops = ops ↔ acceptedFrom b ops = ops := by
+  rw [accepted_eq_iff, accepted_eq_iff, (same_run ops a b hw h).1]
+
+theorem C08_ranked_order_unobservable_obs (a b : Comp) (hw : WF a) (h : SameButRanked a b) (ops : List Op) :
+    obs (runFrom a ops) = obs (runFrom b ops) :=
+  obs_of_same _ _ (same_run ops a b hw h).2
+
+/-- **The order in which different athletes take their trials does not matter** (`C08_interleaving_statement`):
+    after any history `pre`, if a block of trials is accepted in full, then so is every rearrangement of it that keeps
+    each athlete's own order, and whatever follows (`post`) ends in the same state, heights, cards, bests and places. -/
+theorem C08_interleaving : C08_interleaving_statement := by
+  intro pre seg seg' post htr hperm hthreads hacc
+  have hg : Good (HJ.run {} pre) := good_init.run pre
+  rw [accepted_eq_iff, allOk_append] at hacc
+  simp only [Bool.and_eq_true] at hacc
+  have hsw : Swaps seg seg' := by
+    apply swaps_of_same_threads seg seg' htr hperm
+    intro b
+    have := hthreads b
+    unfold thread
+    have hfun : (fun op => bibOf op == some b) =
+        (fun op => match op with | Op.trial b' _ => b' == b | _ => false) := by
+      funext op
+      cases op <;> simp [bibOf]
+    rw [hfun]; exact this
+  obtain ⟨hok', hsame⟩ := swaps_run (HJ.run {} pre) hg hsw hacc.2
+  constructor
+  · rw [accepted_eq_iff, allOk_append]
+    simp only [Bool.and_eq_true]
+    exact ⟨hacc.1, hok'⟩
+  · rw [runFrom_eq_run, runFrom_eq_run, List.append_assoc, List.append_assoc, run_append, run_append,
+      run_append, run_append]
+    exact obs_of_same _ _ (same_run post _ _ (hg.run seg).wf hsame).2
 
 /-! non-vacuity (kernel-evaluated): a history with refused calls; its log replays to the same state -/
 example : (runFrom {} [.add 1, .bar 0, .bar 105, .trial 1 .o, .trial 1 .o, .add 2]).log =
